@@ -116,5 +116,8 @@ class LimitedRateLimiter(RateLimiter):
             self.bucket = self.limit_bps
 
     def copy_tokens(self, other: RateLimiter):
+        # Settle the other limiter at its own rate first, otherwise the time
+        # since its last refill gets credited at the rate of this limiter
+        other.refill()
         self.add_tokens(other.bucket)
         self.last_refill = other.last_refill
